@@ -183,6 +183,7 @@ def analyse(facts, tier):
                     why=show(tb[0]) if ok else 'loop is marked as passed by %s: a target inside the loop makes the next loop end jump to the song start' % (show(tb[0]) if tb else 'nothing')))
     obls += r6(facts)
     obls += r7(facts)
+    obls += r1b_audio(facts)
     return obls
 
 
@@ -304,4 +305,38 @@ def r7(facts):
         out.append(Obl('C08.R7', rw.name, 'member ' + fld, rw.loc, 'discharged' if ok else 'finding',
                        why='changed during playback (%s), restored by rewind()' % h if ok else
                        '%s changes %s during playback (%s) but rewind() does not restore it: a seek, which replays from the rewound position, starts with the value from later in the song' % (h, fld, loc.rsplit('/', 1)[-1])))
+    return out
+
+
+
+def r1b_audio(facts):
+    """every API function that moves the sequencer position (seek / rewind) also restarts the audio-path period: it stores Setup::delay,
+    Setup::carry and Setup::tick_skip_samples_delay after the move; a stale pending period delays the first events at the new position"""
+    out = []
+    need = ('delay', 'carry', 'tick_skip_samples_delay')
+    n = 0
+    for fn in facts.all_fns():
+        if not fn.name.startswith('opn2_') or fn.tree is None:
+            continue
+        moves = [(b, j, st, short(callee_name(x))) for b, j, st in fn.cfg.stmts() for x in calls_in(st['s'])
+                 if short(callee_name(x)) in ('seek', 'rewind') and 'Sequencer' in callee_name(x)]
+        for b, j, st, what in moves:
+            n += 1
+            missing = []
+            for fld in need:
+                okf = False
+                for b2, j2, st2 in fn.cfg.stmts():
+                    if not ((b2 == b and j2 >= j) or fn.cfg.stmt_before((b, j), (b2, j2))):
+                        continue
+                    for y in walk(st2['s']):
+                        ap = assign_parts(y)
+                        if ap and strip(ap[0]).get('k') == 'MemberExpr' and short(strip(ap[0])['n']) == fld and 'Setup' in strip(ap[0])['n']:
+                            okf = True
+                if not okf:
+                    missing.append(fld)
+            out.append(Obl('C08.R1', fn.name, 'audio period restarted after %s()' % what, st['loc'], 'finding' if missing else 'discharged',
+                           why=('m_setup.%s keep(s) the value of the position that was left: in audio-driven playback the first events at the new position are delivered late' % ', '.join(missing)) if missing else
+                           'delay, carry and tick_skip_samples_delay are stored after the move'))
+    if n < 2:
+        raise build.AnalysisBroken('C08.R1: API functions that seek / rewind the sequencer not found')
     return out
